@@ -330,3 +330,59 @@ func TestC02_Refusal(t *testing.T) {
 	}
 	runParallel(t, r, cases, evalC02Refusal)
 }
+
+// ----------------------------------------------------------------------------------
+// Large populations: "for any number of UEs". More than 255 UE-requested 5GSM transactions in one run, so that
+// anything the emulator keeps per process and puts into a one-octet field (a procedure transaction identity, a
+// PDU session identity, a counter) has to wrap inside the run; the RAN-UE-NGAP-IDs and the SUPI-derived
+// identities of the population cross the 256 boundary as well. Procedure level (no pauses between the UEs);
+// in the thorough tier one population also goes through the real main.
+
+func genC02Many(level string) func(t *rapid.T) *peCase {
+	return func(t *rapid.T) *peCase {
+		n := rapid.IntRange(256, 300).Draw(t, "n_ues")
+		cfg := genConfig(t, cfgOpts{maxUEs: n + 1, suffixBias: rapid.Bool().Draw(t, "suffix_bias")})
+		k := clamps{R: int64(n), E: int64(n)}
+		if level == "proc" {
+			// the pausing procedures for the first few UEs only (about a second each)
+			k.L = int64(rapid.IntRange(0, 2).Draw(t, "L"))
+			k.D = int64(rapid.IntRange(0, 2).Draw(t, "D"))
+		}
+		cfg.Reg, cfg.Pdu, cfg.Service, cfg.Release, cfg.Dereg = k.R, k.E, k.S, k.L, k.D
+		c := &peCase{Level: level, Cfg: cfg}
+		if level == "proc" {
+			c.Script = cfg.procScript(k)
+		}
+		c.Sc = genScenario(t, cfg, n, refamf.Policy{DistinctSUPI: true})
+		return c
+	}
+}
+
+func TestC02_Many(t *testing.T) {
+	haveBins(t, "procdriver")
+	r := ev.New(t, "C02", "TestC02_Many")
+	var cases []*peCase
+	if ev.Replay() == "" {
+		n := 1
+		if ev.Tier() == "thorough" {
+			n = 6
+		}
+		gen := rapid.Custom(genC02Many("proc"))
+		for k := 0; k < n; k++ {
+			cases = append(cases, gen.Example(int(ev.Seed())+k*86028121+int(ev.Shard())*7))
+		}
+		if ev.Tier() == "thorough" && ev.Shard() == 0 {
+			cases = append(cases, rapid.Custom(genC02Many("main")).Example(int(ev.Seed())+5))
+		}
+	}
+	runParallel(t, r, cases, func(c *peCase) evalResult {
+		var res evalResult
+		if c.Level == "main" {
+			res = evalC02Main("TestC02_Many")(c)
+		} else {
+			res = evalC02Proc(c)
+		}
+		res.V.Classes = append(res.V.Classes, "population>255")
+		return res
+	})
+}
